@@ -2,8 +2,13 @@
 package main
 
 import (
-	"sort"
 	"fmt"
+	"sort"
+
+	"github.com/grindlemire/go-lucene/internal/lex"
+	"github.com/grindlemire/go-lucene/pkg/driver"
+	"github.com/grindlemire/go-lucene/pkg/lucene/expr"
+
 	"go/ast"
 	"go/parser"
 	"go/token"
@@ -23,7 +28,15 @@ func parseFile(root, rel string) *ast.File {
 	return f
 }
 
+// soft: inside driverTablesFromSource a shape that is not understood is not fatal (the tables are then read off the running package)
+var soft = false
+
+type softFail string
+
 func fail(format string, a ...any) {
+	if soft {
+		panic(softFail(fmt.Sprintf(format, a...)))
+	}
 	fmt.Fprintf(os.Stderr, "gentables: "+format+"\n", a...)
 	os.Exit(2)
 }
@@ -82,6 +95,50 @@ func varValue(f *ast.File, name string) ast.Expr {
 	return nil
 }
 
+// varValueOpt: like varValue, nil when the file declares no such variable
+func varValueOpt(f *ast.File, name string) ast.Expr {
+	for _, d := range f.Decls {
+		g, ok := d.(*ast.GenDecl)
+		if !ok || g.Tok != token.VAR {
+			continue
+		}
+		for _, s := range g.Specs {
+			vs := s.(*ast.ValueSpec)
+			for i, n := range vs.Names {
+				if n.Name == name && i < len(vs.Values) {
+					return vs.Values[i]
+				}
+			}
+		}
+	}
+	return nil
+}
+
+// resolveLit: a composite literal, or a call f() of a function of the same file whose body is `return <composite literal>`
+// (a table built by a function instead of written in place)
+func resolveLit(f *ast.File, e ast.Expr) ast.Expr {
+	call, ok := e.(*ast.CallExpr)
+	if !ok || len(call.Args) != 0 {
+		return e
+	}
+	id, ok := call.Fun.(*ast.Ident)
+	if !ok {
+		return e
+	}
+	for _, d := range f.Decls {
+		fd, ok := d.(*ast.FuncDecl)
+		if !ok || fd.Recv != nil || fd.Name.Name != id.Name || fd.Body == nil || len(fd.Body.List) != 1 {
+			continue
+		}
+		if r, ok := fd.Body.List[0].(*ast.ReturnStmt); ok && len(r.Results) == 1 {
+			if cl, ok := r.Results[0].(*ast.CompositeLit); ok {
+				return cl
+			}
+		}
+	}
+	return e
+}
+
 func sel(e ast.Expr) string { // Ident or pkg.Ident -> Ident
 	switch x := e.(type) {
 	case *ast.Ident:
@@ -110,7 +167,6 @@ func mapLit(e ast.Expr, val func(ast.Expr) string, key func(ast.Expr) string) []
 	}
 	return out
 }
-
 
 // Go map literals have no order: the generated association lists are put into a canonical order (position of the key - or, for
 // string-keyed maps, of the value - in the declaration order of its enum; anything else alphabetically), so that reordering the
@@ -191,7 +247,18 @@ func main() {
 	p("Definition toktype_order : list toktype := %s.\n", coqList(toks))
 	syms := canon(mapLit(varValue(lexf, "symbols"), sel, runeKey), toks, true)
 	p("Definition symbols : list (N * toktype) := %s.\n", coqList(pairs(syms, "(%s%%N, %s)")))
-	terms := canon(mapLit(varValue(lexf, "terminalTokens"), func(ast.Expr) string { return "" }, sel), toks, false)
+	var terms []kv
+	if v := varValueOpt(lexf, "terminalTokens"); v != nil {
+		terms = canon(mapLit(v, func(ast.Expr) string { return "" }, sel), toks, false)
+	} else {
+		// the table is no longer a literal (a switch, say): it is read through the exported predicate lex.IsTerminal, token type by
+		// token type in the order of the const block (gentables is linked against the working tree like the observer)
+		for i, name := range toks {
+			if lex.IsTerminal(lex.Token{Typ: lex.TokType(i)}) {
+				terms = append(terms, kv{name, ""})
+			}
+		}
+	}
 	p("Definition terminal_tokens : list toktype := %s.\n\n", coqList(keys(terms)))
 
 	redf := parseFile(root, "pkg/lucene/reduce/reduce.go")
@@ -212,7 +279,17 @@ func main() {
 	p("Definition operator_order : list operator := %s.\n", coqList(withP(ops, "")))
 	fs := canon(mapLit(varValue(opf, "fromString"), sel, strLit), withP(ops, ""), true)
 	p("Definition from_string : list (string * operator) := %s.\n", coqList(pairsQ(fs, "(\"%s\", %s)")))
-	ts := canon(mapLit(varValue(opf, "toString"), strLit, sel), withP(ops, ""), false)
+	var ts []kv
+	if v := varValueOpt(opf, "toString"); v != nil {
+		ts = canon(mapLit(v, strLit, sel), withP(ops, ""), false)
+	} else {
+		// no literal any more: read through the exported method Operator.String, operator by operator
+		for i, name := range ops {
+			if str := expr.Operator(i).String(); str != "" {
+				ts = append(ts, kv{name, str})
+			}
+		}
+	}
 	p("Definition to_string : list (operator * string) := %s.\n\n", coqList(pairsQ(ts, "(%s, \"%s\")")))
 
 	valf := parseFile(root, "pkg/lucene/expr/validator.go")
@@ -222,40 +299,20 @@ func main() {
 	rens := canon(mapLit(varValue(renf, "renderers"), sel, sel), withP(ops, ""), false)
 	p("Definition renderers : list (operator * string) := %s.\n\n", coqList(pairsQ(rens, "(%s, \"%s\")")))
 
-	basef := parseFile(root, "pkg/driver/base.go")
-	shared := canon(mapLit(varValue(basef, "Shared"), renderFn, sel), withP(ops, ""), false)
+	// the driver tables: read from the source (base.go Shared, postgresql.go NewPostgresDriver: its own literal map overlaid with
+	// Shared); when the source no longer has that shape (the map built by a function, the overlay moved into a helper) the same
+	// tables are read off the running package instead: every registered function is identified by what it returns for marker
+	// arguments (gentables is linked against the working tree like the observer)
+	shared, pgOwn, ok := driverTablesFromSource(root, ops)
+	if !ok {
+		shared, pgOwn = driverTablesByProbing(ops)
+	}
 	fnNames := []string{}
 	for _, x := range shared {
 		fnNames = append(fnNames, strings.Trim(strings.Fields(strings.Trim(x.v, "()"))[0], "()"))
 	}
 	p("Inductive renderfn_id := %s.\n", strings.Join(prefix(fnSigs(uniq(fnNames), shared), "| "), " "))
 	p("Definition shared_fns : list (operator * renderfn_id) := %s.\n", coqList(pairsQ(shared, "(%s, %s)")))
-
-	// NewPostgresDriver: the literal map and the overlay loop over Shared
-	pgf := parseFile(root, "pkg/driver/postgresql.go")
-	var pgOwn []kv
-	overlay := false
-	ast.Inspect(pgf, func(n ast.Node) bool {
-		switch x := n.(type) {
-		case *ast.AssignStmt:
-			if len(x.Lhs) == 1 && len(x.Rhs) == 1 {
-				if id, ok := x.Lhs[0].(*ast.Ident); ok && id.Name == "fns" {
-					if _, ok := x.Rhs[0].(*ast.CompositeLit); ok {
-						pgOwn = mapLit(x.Rhs[0], renderFn, sel)
-					}
-				}
-			}
-		case *ast.RangeStmt:
-			if sel(x.X) == "Shared" {
-				overlay = true
-			}
-		}
-		return true
-	})
-	if !overlay {
-		fail("NewPostgresDriver no longer overlays Shared")
-	}
-	pgOwn = canon(pgOwn, withP(ops, ""), false)
 	p("Definition postgres_own_fns : list (operator * renderfn_id) := %s.\n", coqList(pairsQ(pgOwn, "(%s, %s)")))
 	// renderfn.go: the functions that are one fmt.Sprintf of a constant format over left / right / op
 	rff := parseFile(root, "pkg/driver/renderfn.go")
@@ -392,4 +449,137 @@ func fnSigs(names []string, shared []kv) []string {
 		o = append(o, sig)
 	}
 	return o
+}
+
+func driverTablesFromSource(root string, ops []string) (shared, pgOwn []kv, ok bool) {
+	soft = true
+	defer func() {
+		soft = false
+		if r := recover(); r != nil {
+			if _, isSoft := r.(softFail); !isSoft {
+				panic(r)
+			}
+			shared, pgOwn, ok = nil, nil, false
+		}
+	}()
+	basef := parseFile(root, "pkg/driver/base.go")
+	shared = canon(mapLit(resolveLit(basef, varValue(basef, "Shared")), renderFn, sel), withP(ops, ""), false)
+	pgf := parseFile(root, "pkg/driver/postgresql.go")
+	overlay, found := false, false
+	ast.Inspect(pgf, func(n ast.Node) bool {
+		switch x := n.(type) {
+		case *ast.AssignStmt:
+			if len(x.Lhs) == 1 && len(x.Rhs) == 1 {
+				if id, isId := x.Lhs[0].(*ast.Ident); isId && id.Name == "fns" {
+					if _, isLit := x.Rhs[0].(*ast.CompositeLit); isLit {
+						pgOwn = mapLit(x.Rhs[0], renderFn, sel)
+						found = true
+					}
+				}
+			}
+		case *ast.RangeStmt:
+			if id, isId := x.X.(*ast.Ident); isId && id.Name == "Shared" {
+				overlay = true
+			}
+		}
+		return true
+	})
+	if !overlay || !found {
+		fail("NewPostgresDriver no longer overlays Shared in the known form")
+	}
+	pgOwn = canon(pgOwn, withP(ops, ""), false)
+	return shared, pgOwn, true
+}
+
+// identify a render function by its results on marker arguments
+func probe(fn driver.RenderFN, l, r string) (s string, err error) {
+	defer func() {
+		if x := recover(); x != nil {
+			s, err = "", fmt.Errorf("panic: %v", x)
+		}
+	}()
+	return fn(l, r)
+}
+
+func identifyFn(fn driver.RenderFN, ops []string) string {
+	s1, e1 := probe(fn, "L", "R")
+	_, e2 := probe(fn, "\xff", "R")
+	if e1 == nil {
+		switch s1 {
+		case "L = R":
+			return "Fn_equals"
+		case "L > R":
+			return "Fn_greater"
+		case "L >= R":
+			return "Fn_greaterEq"
+		case "L < R":
+			return "Fn_less"
+		case "L <= R":
+			return "Fn_lessEq"
+		case "L IN R":
+			return "Fn_inFn"
+		case "(L)":
+			return "Fn_list"
+		case "L SIMILAR TO R":
+			return "Fn_like"
+		case "L":
+			if e2 != nil {
+				return "Fn_literal"
+			}
+			return "Fn_noop"
+		}
+		for i, name := range ops {
+			str := expr.Operator(i).String()
+			if str == "" {
+				continue
+			}
+			if s1 == "L "+str+" R" {
+				return "(Fn_basicCompound " + name + ")"
+			}
+			if s1 == str+"(L)" {
+				return "(Fn_basicWrap " + name + ")"
+			}
+		}
+	}
+	if s, err := probe(fn, `"c"`, "[1, 5]"); err == nil && strings.Contains(s, ">= 1") && strings.Contains(s, "<= 5") {
+		return "Fn_rang"
+	}
+	fail("a registered render function is none of the known ones (it returns %q for the marker arguments)", s1)
+	return ""
+}
+
+func driverTablesByProbing(ops []string) (shared, pgOwn []kv) {
+	for i, name := range ops {
+		if fn, ok := driver.Shared[expr.Operator(i)]; ok && fn != nil {
+			shared = append(shared, kv{name, identifyFn(fn, ops)})
+		}
+	}
+	sharedId := map[string]string{}
+	for _, x := range shared {
+		sharedId[x.k] = x.v
+	}
+	pg := driver.NewPostgresDriver()
+	for i, name := range ops {
+		if fn, ok := pg.RenderFNs[expr.Operator(i)]; ok && fn != nil {
+			if id := identifyFn(fn, ops); sharedId[name] != id {
+				pgOwn = append(pgOwn, kv{name, id})
+			}
+		}
+	}
+	// an operator of Shared that the postgres driver lacks cannot be expressed as an overlay: fail loudly
+	for _, x := range shared {
+		if _, ok := pg.RenderFNs[expr.Operator(indexOf(ops, x.k))]; !ok {
+			fail("the postgres driver lacks the Shared function of %s", x.k)
+		}
+	}
+	return shared, pgOwn
+}
+
+func indexOf(l []string, x string) int {
+	for i, y := range l {
+		if y == x {
+			return i
+		}
+	}
+	return -1
 }
